@@ -285,6 +285,41 @@ def run_case(case, ctx):
             impl.append(ids.get("directory", "?"))
         finally:
             ctx.cleanup(d)
+        # synced-collection spelling: a job / project DOCUMENT holding the value, handed to open_job in a session
+        # that has not loaded it yet, and a state point of another job
+        if isinstance(v, dict):
+            d3 = ctx.fresh_dir("c01d")
+            try:
+                p3 = signac.init_project(d3)
+                holder = p3.open_job({"holder": 1}).init()
+                other = p3.open_job(v).init()
+                try:
+                    p3.document = v
+                    holder.document = v
+                    stored = True
+                except Exception:  # not a valid document (e.g. a key with a dot): this spelling does not exist
+                    stored = False
+                spell = {}
+                if stored:
+                    f1 = signac.Project(d3)
+                    spell["open_job(project.document) in a session that has not read it"] = lambda: f1.open_job(f1.document)
+                    f2 = signac.Project(d3)
+                    spell["open_job(job.document) in a session that has not read it"] = (
+                        lambda: f2.open_job(f2.open_job(id=holder.id).document))
+                f3 = signac.Project(d3)
+                spell["open_job(other_job.statepoint) of a handle opened by id"] = lambda: f3.open_job(f3.open_job(id=other.id).statepoint)
+                for name, fn in spell.items():
+                    try:
+                        j3 = fn()
+                        got3 = (j3.id, calc_id(j3.statepoint()))
+                    except Exception as e:
+                        got3 = ("EXC:" + exc_name(e),) * 2
+                    if got3 != (want, want):
+                        oracle.append("%s: id %s, its state point hashes to %s; md5 of the canonical text of %r = %s" % (
+                            name, got3[0], got3[1], v, want))
+                tags.append("synced-spelling=%s" % stored)
+            finally:
+                ctx.cleanup(d3)
     for gv, gid in GOLDEN:
         if tagged(v) == tagged(gv) and impl[0] != gid:
             oracle.append("pinned id of %r is %s, calc_id gives %s" % (gv, gid, impl[0]))
